@@ -171,7 +171,8 @@ def h_dispatch(c, kinds, n_msgs=2):
             loop.call(w['fut'].cancel)
             w['pre_cancelled'] = True
     for j in range(n_msgs):
-        if j and c.choose(2, f'loop_turn_before_msg{j}') == 1:
+        same_class = len({w['spec'][1] for w in waiters}) < len(waiters)
+        if j and same_class and c.choose(2, f'loop_turn_before_msg{j}') == 1:
             # the messages are not buffered back-to-back: the loop gets a turn in between (done callbacks run)
             loop.run_ready()
             c.reach('loop_turn_between_messages')
